@@ -130,8 +130,10 @@ def run_impl(ctx, cases, tag, procs=8, timeout=900):
     return results
 
 
-def model_verdicts(ctx, cases, results, idx, tag, shard=120):
+def model_verdicts(ctx, cases, results, idx, tag, shard=None):
     """evaluates the cases idx through the model inside Coq; returns {case index: verdict code != 0}"""
+    if shard is None:
+        shard = max(8, -(-len(idx) // 14))          # spread over the cores; one coqc per shard
 
     def one(s):
         part = idx[s:s + shard]
